@@ -64,15 +64,22 @@ pub async fn build_dataset(
     let ing = Ingester::new(no_wal_ingester_config(), store, meta, storage_config(), MetricSchema::default_metrics());
     let mut ids = vec![];
     let mut next = first_id;
+    // now and then one chunk longer than a Parquet reader batch (1024 / 8192 rows), so that
+    // a merge input arrives as several record batches
+    let mut sizes: Vec<usize> = (0..nchunks)
+        .map(|c| if c == 0 && rng.chance(1, 12) { if rng.chance(1, 3) { 8193 + rng.usize(200) } else { 1025 + rng.usize(600) } } else { 1 + rng.usize(5) })
+        .collect();
+    // ... and now and then a dataset that sits in one hour and holds exactly 1024 / 8192 / 16384 rows in all: what a
+    // merge of it writes is a whole number of encoder batches
+    let exact_total = nchunks > 0 && rng.chance(1, 16);
+    if exact_total {
+        let total = *rng.pick(&[1024usize, 8192, 8192, 16384]);
+        let others: usize = sizes.iter().skip(1).sum();
+        sizes[0] = total - others.min(total - 1);
+    }
     for c in 0..nchunks {
-        let bucket = rng.range(0, nbuckets - 1);
-        // now and then one chunk longer than a Parquet reader batch (1024 / 8192 rows), so that
-        // a merge input arrives as several record batches
-        let k = if c == 0 && rng.chance(1, 12) {
-            if rng.chance(1, 3) { 8193 + rng.usize(200) } else { 1025 + rng.usize(600) }
-        } else {
-            1 + rng.usize(5)
-        };
+        let bucket = if exact_total { 0 } else { rng.range(0, nbuckets - 1) };
+        let k = sizes[c];
         let rows: Vec<RowSpec> = (0..k)
             .map(|_| {
                 next += 1;
